@@ -273,6 +273,68 @@ nextchar_abs(struct scanner *s)
 	s->loc.col = c == '\n' ? 0 : k > 0 ? 1 : s->loc.col + 1;
 }
 
+/* Physical line and column of every logical character, from those of character 0 (g_pl0, g_pc0) -- the logical-level
+ * counterpart of g_nlcum/g_colof: character i is preceded by g_k[i] splices (each ends a physical line) and follows
+ * character i-1 (which ends a line if it is a new-line).  Index g_m is the end of file.
+ *   SYNC_ABS(s): the scanner's location is that of its character, in scan.c's convention for the new-line character
+ *   (already on the next line, column 0).  nextchar_abs preserves it (that is its line/column rule).
+ */
+size_t g_pl0, g_pc0;
+size_t g_pline[GS_LMAX + 2];
+size_t g_pcol[GS_LMAX + 2];
+
+static void
+gs_abs_tables(void)
+{
+	size_t i;
+
+	g_pline[0] = g_pl0;
+	g_pcol[0] = g_pc0;
+	for (i = 1; i <= GS_LMAX + 1; i++) {
+		unsigned k = i <= GS_LMAX ? g_k[i] : 0;
+		int prevnl = g_L[i - 1] == '\n';
+
+		g_pline[i] = g_pline[i - 1] + prevnl + k;
+		g_pcol[i] = k > 0 || prevnl ? 1 : g_pcol[i - 1] + 1;
+	}
+}
+#define GS_IDX(i)     ((i) <= GS_LMAX + 1 ? (i) : GS_LMAX + 1)
+#define SYNC_ABS(s)   ((s)->loc.line == g_pline[GS_IDX(g_li)] + ((s)->chr == '\n') && \
+                       (s)->loc.col == ((s)->chr == '\n' ? 0 : g_pcol[GS_IDX(g_li)]))
+
+/* Stand-in for comment() in the units of its caller scankind (replace_calls comment:comment_spec): the post-state that
+ * SCAN.comment proves for the real comment(), computed from the comment oracle of spec/lex.h: no comment -> false and
+ * nothing changes; // -> stands on the new-line (or end of file); block comment -> stands on the character after the
+ * terminator, or does not return (diagnostic) when there is none; one space recorded; location in step (SYNC_ABS).
+ */
+bool
+comment_spec(struct scanner *s)
+{
+	size_t i = g_li < GS_LMAX + 1 ? g_li : GS_LMAX + 1, j;
+	int e;
+
+	if (s->chr == '/') {
+		j = i + (size_t)lex_linecomment_end(g_L + i);
+	} else if (s->chr == '*') {
+		e = lex_blockcomment_end(g_L + i);
+		if (e == 0)
+			verif_noreturn();    /* error(&s->loc, "EOF in comment") */
+		j = i + (size_t)e + 1;
+	} else {
+		return false;
+	}
+	if (j > g_m)
+		j = g_m;
+	g_li = j;
+	s->chr = j < g_m ? g_L[j] : LEX_EOF;
+	g_in_pos = GS_POS_AFTER(j);
+	g_unget_depth = s->chr == '\\' && g_in_pos < g_in_n ? 1 : 0;
+	s->loc.line = g_pline[GS_IDX(j)] + (s->chr == '\n');
+	s->loc.col = s->chr == '\n' ? 0 : g_pcol[GS_IDX(j)];
+	s->sawspace = true;
+	return true;
+}
+
 /* ungetc at the logical level (replace_calls ghost_ungetc:ungetc_abs, for units on nextchar_abs that can reach scankind's
    ".." pushback): the scanner's character goes back in front of the stream; the splices that preceded it stay consumed. */
 unsigned g_k0[GS_LMAX + 1];   /* g_k as laid out (g_k itself is updated by a pushback) */
